@@ -22,8 +22,9 @@ from gen import coverage as G
 
 ID = "C05"
 PROPS = ["IsoVerif/Props/C05.lean", "IsoVerif/Props/C05Multi.lean", "IsoVerif/Props/C05Printers.lean",
-         "IsoVerif/Props/C05Edge.lean"]
-TARGETS = ["IsoVerif.Props.C05", "IsoVerif.Props.C05Multi", "IsoVerif.Props.C05Printers", "IsoVerif.Props.C05Edge"]
+         "IsoVerif/Props/C05Edge.lean", "IsoVerif/Props/C05Contigs.lean"]
+TARGETS = ["IsoVerif.Props.C05", "IsoVerif.Props.C05Multi", "IsoVerif.Props.C05Printers", "IsoVerif.Props.C05Edge",
+           "IsoVerif.Props.C05Contigs"]
 GEN_DEPS = ["Prims", "Constants", "Enums", "EventClasses", "PrinterTables"]
 LEVEL = "proof"
 RULE = ("synthetic coverage dictionaries (bin counts 1..520 around the 128-bin minimum, thresholds at the 1 % boundary, "
@@ -503,6 +504,9 @@ def correspondence(ctx):
     # 9. records without reference span through the real loop, the BED printer on retained records (Props/C05Edge.lean)
     from props import C05edge
     C05edge.correspondence(ctx)
+    # contig sets of FASTA / BAM header / annotation that differ (props/C05contigs.py, Props/C05Contigs.lean)
+    from props import C05contigs
+    C05contigs.correspondence(ctx)
 
 
 def _first_cluster(alns):
@@ -912,6 +916,8 @@ def oracle(ctx, disagreements, broken):
     # 5. records the pipeline must digest, twin BED lines, repeated names, MAPQ 0..5 (props/C05edge.py)
     from props import C05edge
     C05edge.oracle(ctx, disagreements, broken)
+    from props import C05contigs
+    C05contigs.oracle(ctx)
 
 
 def _report_alns(ctx, alns, small=False):
@@ -938,6 +944,9 @@ def replay(ctx, failure):
         return check_records(inp["recs"]) is not None
     if inp.get("level") == "pipeline":
         return check_pipeline(inp["spec"]) is not None
+    if inp.get("level") == "contigs":
+        from props import C05contigs
+        return C05contigs.replay(ctx, failure)
     if str(inp.get("level", "")).startswith("edge"):
         from props import C05edge
         return C05edge.replay(ctx, failure)
